@@ -64,6 +64,14 @@ type Module struct {
 	// calls without side effects: an if statement whose branches are empty (after ignore_calls) and whose
 	// condition consists of such calls only is left out
 	PureCalls []string `json:"pure_calls"`
+	// a heap: one more variable that every function with "heap": true takes and returns, and that the callees
+	// with "heap": "r" / "rw" read / change (objects reached through pointers, allocated and linked by callees)
+	HeapCfg *HeapCfg `json:"heap"`
+}
+
+type HeapCfg struct {
+	Type string `json:"type"` // Lean type
+	Name string `json:"name"` // name of the variable (default "heap")
 }
 
 type VarCfg struct {
@@ -133,6 +141,8 @@ type FuncCfg struct {
 	// not the function but one of its conditions is translated, as a predicate over the variables it reads
 	// (for functions that cannot be translated as a whole: the decision between two reads of a socket)
 	Extract *ExtractCfg `json:"extract"`
+	// the function takes the module's heap as its last parameter and returns it beside its result
+	Heap bool `json:"heap"`
 }
 
 // ExtractCfg: the nth condition (source order, from 0) of the given kind — "if" or "for" — among the
@@ -162,6 +172,14 @@ type Callee struct {
 	Field  bool     `json:"field"` // "Type.Field" of a library type: a field read, not a call
 	// optional: the Go types the arguments must have ("_" = any)
 	ArgTypes []string `json:"argtypes"`
+	// kind "update": the index of the argument (a local variable) whose new value the template is; absent = the receiver
+	Updates *int `json:"updates"`
+	// kind "visit": a call `x.M(args…, func(p…) { body })` whose closure runs once per element of the list the
+	// template denotes (the elements are the tuples of the closure's parameters); types of the closure's parameters
+	Closure []string `json:"closure"`
+	// the call reads ("r") or changes ("rw") the heap variable of the module ({heap} in the template; "rw": the
+	// template is a pair (result, new heap), or the new heap alone when the call has no result)
+	Heap string `json:"heap"`
 }
 
 // ---------------------------------------------------------------- packages of the repo
@@ -606,6 +624,8 @@ func pr(b *strings.Builder, n node, ind string) {
 		b.WriteString(ind + "| some " + x.r + " => " + x.r + "\n")
 		b.WriteString(ind + "| none =>\n")
 		pr(b, x.rest, ind+"  ")
+	case nLoop:
+		prLoop(b, x, ind)
 	default:
 		panic("go2lean: unknown node")
 	}
@@ -666,6 +686,8 @@ type val struct {
 	cv  *cval
 	opt *optres // a fallible (value…, error) result, not a first-class value
 	nn  bool    // a map value that is not nil (make)
+	// the results of a call of a translated function with several (non-error) results: s is the tuple
+	multi []string
 }
 
 type optres struct {
@@ -690,6 +712,12 @@ type ftrans struct {
 	inFold    bool
 	inFoldRet bool // inside a fold whose body may return: a return is `Sum.inl …`
 	inReturn  bool // translating the results of a return statement
+	// loops of the general form (loops.go): break / continue / return / panic inside, nested, counted `for`
+	loops       []*loopCtx
+	rtype       string // Lean type of the function's result (all layers)
+	switchDepth int    // switch statements entered since the innermost loop began
+	pathVars    map[string]binding // extract: selector paths that are read as variables
+	heapName    string // the heap variable threaded through the function ("" = none)
 }
 
 var leanKeywords = map[string]bool{"at": true, "from": true, "fun": true, "end": true, "open": true, "in": true, "do": true, "then": true,
@@ -728,6 +756,12 @@ func (ft *ftrans) tmp() string {
 // terms of the result layers: value, error, panic
 func (ft *ftrans) layer(inner string) string {
 	// inner = term of the function's declared Lean type
+	if len(ft.loops) > 0 {
+		for range ft.loops {
+			inner = "Gen.Rt.Step.ret " + atom(inner)
+		}
+		return inner
+	}
 	if ft.inFoldRet {
 		return "Sum.inl " + atom(inner)
 	}
@@ -801,6 +835,10 @@ func isAtom(s string) bool {
 
 func (ft *ftrans) wrap(pre []prelude, n node) node {
 	for i := len(pre) - 1; i >= 0; i-- {
+		if strings.HasPrefix(pre[i].opt, letMark) {
+			n = nLet{name: pre[i].name, val: strings.TrimPrefix(pre[i].opt, letMark), body: n} // a heap-changing call: no panic
+			continue
+		}
 		n = nMatch{scrut: pre[i].opt, pat: pre[i].name, none: nLeaf{ft.panicTerm()}, some: n}
 	}
 	return n
@@ -1301,6 +1339,8 @@ func (ft *ftrans) binary(c *ast.BinaryExpr, e env, pre *[]prelude) val {
 			fn = "Nat.lor"
 		}
 		return val{s: "(" + fn + " " + atom(a.s) + " " + atom(b.s) + ")", t: pick(a.t, b.t)}
+	case token.MUL, token.QUO, token.REM:
+		return ft.mulDivRem(c, e, pre)
 	case token.ADD, token.SUB:
 		a := ft.expr(c.X, e, pre)
 		b := ft.expr(c.Y, e, pre)
@@ -1598,7 +1638,15 @@ func (ft *ftrans) applyCallee(c *Callee, recv string, args []ast.Expr, e env, pr
 		}
 		as = append(as, atom(v.s))
 	}
-	term := subst(c.Lean, recv, as)
+	term := subst(ft.heapSubst(c), recv, as)
+	if c.Heap == "rw" {
+		if c.Kind != "pure" || len(c.Types) != 1 || c.Panics {
+			failf("callee %s: a heap-changing callee used as a value must be of kind pure with one type", c.Go)
+		}
+		n := ft.tmp()
+		*pre = append(*pre, prelude{"(" + n + ", " + ft.heapName + ")", letMark + term})
+		return val{s: n, t: c.Types[0]}
+	}
 	if c.Panics {
 		n := ft.tmp()
 		*pre = append(*pre, prelude{n, term})
@@ -1639,6 +1687,9 @@ func (ft *ftrans) callFn(g *fn, recv *val, args []ast.Expr, e env, pre *[]prelud
 	}
 	if g.variadic {
 		failf("a call of the variadic function %s is outside the subset", g.cfg.Go)
+	}
+	if g.cfg.Heap {
+		failf("a call of %s, a function with a heap, from translated code is outside the subset", g.cfg.Go)
 	}
 	var as []string
 	if recv != nil {
@@ -1698,7 +1749,10 @@ func (ft *ftrans) callFn(g *fn, recv *val, args []ast.Expr, e env, pre *[]prelud
 		return val{opt: &optres{term: term, types: g.results}}
 	}
 	if len(g.results) != 1 {
-		failf("call of %s with %d results in an expression", g.cfg.Go, len(g.results))
+		if len(g.results) < 2 {
+			failf("call of %s with %d results in an expression", g.cfg.Go, len(g.results))
+		}
+		return val{s: term, t: "tuple", multi: g.results}
 	}
 	return val{s: term, t: g.results[0]}
 }
@@ -2012,6 +2066,10 @@ func (ft *ftrans) block(stmts []ast.Stmt, e env, k cont) node {
 		return ft.swtch(s, e, rest)
 	case *ast.RangeStmt:
 		return ft.rng(s, e, rest)
+	case *ast.ForStmt:
+		return ft.forStmt(s, e, rest)
+	case *ast.BranchStmt:
+		return ft.branch(s, e)
 	case *ast.ExprStmt:
 		if dc := deleteCall(s); dc != nil {
 			// delete(x.f, k) on a map field of a translated struct variable (a no-op on the nil map)
@@ -2023,6 +2081,17 @@ func (ft *ftrans) block(stmts []ast.Stmt, e env, k cont) node {
 		}
 		if n := ft.updateCall(s.X, e, rest); n != nil {
 			return n
+		}
+		if ce, ok := s.X.(*ast.CallExpr); ok {
+			if n := ft.updateAssign(nil, token.ASSIGN, ce, e, rest); n != nil {
+				return n
+			}
+			if n := ft.heapStmt(ce, e, rest); n != nil {
+				return n
+			}
+			if n := ft.visitCall(ce, e, rest); n != nil {
+				return n
+			}
 		}
 		if ce, ok := s.X.(*ast.CallExpr); ok {
 			if ft.ignored(ce) {
@@ -2066,6 +2135,9 @@ func (ft *ftrans) updateCall(x ast.Expr, e env, rest cont) node {
 	}
 	if ft.inLoop || ft.inFold {
 		failf("an updating call inside a loop is outside the subset")
+	}
+	if cal.Updates != nil {
+		return nil // the updated value is an argument: updateAssign
 	}
 	var pre []prelude
 	var as []string
@@ -2221,6 +2293,9 @@ func (ft *ftrans) ret(s *ast.ReturnStmt, e env) node {
 		failf("a function that updates its receiver and returns an error or a multi-valued call is outside the subset")
 	}
 	var pre []prelude
+	if ft.heapName != "" && (f.fallible || len(s.Results) != len(f.results) || len(f.mutated) > 0) {
+		failf("a function with a heap that returns an error, a multi-valued call or updates its receiver is outside the subset")
+	}
 	// return g(x): all results come from one call
 	if len(s.Results) == 1 && n > 1 {
 		v := ft.expr(s.Results[0], e, &pre)
@@ -2257,7 +2332,7 @@ func (ft *ftrans) ret(s *ast.ReturnStmt, e env) node {
 		}
 	}
 	// tail call of a function that may panic: its result is the result
-	if len(f.results) == 1 && !f.fallible && len(f.mutated) == 0 {
+	if len(f.results) == 1 && !f.fallible && len(f.mutated) == 0 && ft.heapName == "" {
 		if ce, ok := unparen(s.Results[0]).(*ast.CallExpr); ok {
 			g := ft.calledFn(ce, e)
 			if g != nil && g != ft.f {
@@ -2283,6 +2358,9 @@ func (ft *ftrans) ret(s *ast.ReturnStmt, e env) node {
 		vs = append(vs, v.s)
 	}
 	vs = append(vs, ft.mutatedNames()...)
+	if ft.heapName != "" {
+		vs = append(vs, ft.heapName)
+	}
 	return ft.wrap(pre, nLeaf{ft.okTerm(tupleOf(vs))})
 }
 
@@ -2601,6 +2679,11 @@ func (ft *ftrans) assign(s *ast.AssignStmt, e env, k cont) node {
 	if len(s.Rhs) != 1 {
 		failf("assignment with %d values for %d variables is outside the subset", len(s.Rhs), len(s.Lhs))
 	}
+	if ce, isCall := unparen(s.Rhs[0]).(*ast.CallExpr); isCall && (s.Tok == token.DEFINE || s.Tok == token.ASSIGN) {
+		if n := ft.updateAssign(s.Lhs, s.Tok, ce, e, k); n != nil {
+			return n
+		}
+	}
 	// v, ok := x.(T): configured per type of x — "assert:T" is the test, the value is x read as a T that may be nil
 	if ta, isTA := unparen(s.Rhs[0]).(*ast.TypeAssertExpr); isTA && len(s.Lhs) == 2 && ta.Type != nil {
 		if s.Tok != token.DEFINE {
@@ -2720,6 +2803,47 @@ func (ft *ftrans) assign(s *ast.AssignStmt, e env, k cont) node {
 		return ft.wrap(pre, nLet{name: b.lean, val: "{ " + b.lean + " with " + sel.Sel.Name + " := " + v.s + " }", body: k(e)})
 	}
 	v := ft.expr(s.Rhs[0], e, &pre)
+	if v.multi != nil {
+		// a, b := f(x) / a, _ = f(x) for a translated function with several results
+		if len(s.Lhs) != len(v.multi) {
+			failf("%d variables for a call with %d results", len(s.Lhs), len(v.multi))
+		}
+		tn := ft.tmp()
+		e2 := e
+		var lets []nLet
+		for i, l := range s.Lhs {
+			o := ft.lhsObj(l)
+			if o == nil {
+				continue
+			}
+			proj := tn
+			for q := 0; q < i; q++ {
+				proj += ".2"
+			}
+			if i < len(s.Lhs)-1 {
+				proj += ".1"
+			}
+			tp := v.multi[i]
+			if s.Tok == token.ASSIGN {
+				old, ok := e[o]
+				if !ok || old.kind != bVar {
+					failf("assignment to %s, which is not a plain local variable here", o.Name)
+				}
+				ft.assignable(old.typ, val{s: proj, t: tp})
+				tp = old.typ
+			}
+			name := ft.nameOf(o)
+			lets = append(lets, nLet{name: name, typ: ft.t.leanType(tp), val: proj})
+			e2 = e2.with(o, binding{kind: bVar, lean: name, typ: tp})
+		}
+		n := k(e2)
+		for i := len(lets) - 1; i >= 0; i-- {
+			l := lets[i]
+			l.body = n
+			n = l
+		}
+		return ft.wrap(pre, nLet{name: tn, val: v.s, body: n})
+	}
 	if v.opt != nil {
 		// a, b, err := f(x)
 		nv := len(v.opt.types)
@@ -2912,6 +3036,13 @@ func (ft *ftrans) canPanic(x ast.Expr, e env) bool {
 			found = true
 		case *ast.SliceExpr:
 			found = true
+		case *ast.BinaryExpr:
+			if c.Op == token.QUO || c.Op == token.REM {
+				// integer division by zero panics (the operators of a type with an operator table do not)
+				if _, tabled := ft.t.mod.Ops[ft.t.under(ft.typeOfExpr(c.X, e))]; !tabled {
+					found = true
+				}
+			}
 		case *ast.SelectorExpr:
 			if len(ft.t.mod.NilTests) > 0 {
 				if tp := ft.typeOfExpr(c.X, e); strings.HasPrefix(tp, "*") {
@@ -3032,8 +3163,9 @@ func (ft *ftrans) joinIf(s *ast.IfStmt, e env, k cont) node {
 		}
 		return true
 	})
-	order := assignedVars(s, e)
-	if jumps || errs || len(order) == 0 {
+	order := ft.stateVars(s, e)
+	heapJoin := ft.heapName != "" && ft.writesHeap(s)
+	if jumps || errs || (len(order) == 0 && !heapJoin) {
 		return nil
 	}
 	// can a branch panic?  (the condition of the outermost if is evaluated outside the join)
@@ -3069,6 +3201,9 @@ func (ft *ftrans) joinIf(s *ast.IfStmt, e env, k cont) node {
 	var names []string
 	for _, o := range order {
 		names = append(names, ft.nameOf(o))
+	}
+	if heapJoin {
+		names = append(names, ft.heapName)
 	}
 	tuple := strings.Join(names, ", ")
 	if len(names) > 1 {
@@ -3182,7 +3317,7 @@ func (ft *ftrans) swtch(s *ast.SwitchStmt, e env, k cont) node {
 	return ft.wrap(tagPre, build(0, e))
 }
 
-func (ft *ftrans) rng(s *ast.RangeStmt, e env, k cont) node {
+func (ft *ftrans) rngOld(s *ast.RangeStmt, e env, k cont) node {
 	if ft.inLoop {
 		failf("nested loops are outside the subset")
 	}
@@ -3645,12 +3780,26 @@ func (t *translator) translateBody(g *fn) {
 	if g.cfg.Fuel {
 		ft.used["fuel"] = true
 	}
+	if g.cfg.Heap {
+		if t.mod.HeapCfg == nil || t.mod.HeapCfg.Type == "" {
+			failf("\"heap\": true, but the module has no heap")
+		}
+		ft.heapName = t.mod.HeapCfg.Name
+		if ft.heapName == "" {
+			ft.heapName = "heap"
+		}
+		ft.used[ft.heapName] = true
+		ps = append(ps, "("+ft.heapName+" : "+t.mod.HeapCfg.Type+")")
+	}
 	var rts []string
 	for _, r := range g.results {
 		rts = append(rts, t.leanType(r))
 	}
 	for _, i := range g.mutated {
 		rts = append(rts, t.leanType(g.params[i].typ))
+	}
+	if g.cfg.Heap {
+		rts = append(rts, t.mod.HeapCfg.Type)
 	}
 	rt := strings.Join(rts, " × ")
 	if g.fallible {
@@ -3659,6 +3808,7 @@ func (t *translator) translateBody(g *fn) {
 	if g.mayPanic {
 		rt = "Option " + atom(rt)
 	}
+	ft.rtype = rt
 	body := ft.block(g.decl.Body.List, e, func(env) node {
 		if len(g.results) == 0 && !g.fallible && len(g.mutated) > 0 {
 			return nLeaf{ft.okTerm(tupleOf(ft.mutatedNames()))} // end of a function without results
